@@ -33,6 +33,8 @@ Enc(s, T, v) == CASE s = "DER" -> DER(Env, T, v)
 
 Slots == 1..3
 NoObj == [st |-> "none"]
+RawObj == [st |-> "raw"]      \* allocated, content not known to the specification (failed / arbitrary decode)
+ZeroObj == [st |-> "zero"]    \* a structure after ASN_STRUCT_RESET: all zero
 Obj(v) == [st |-> "val", v |-> v, sess |-> TRUE]      \* holds the session's value
 ObjV(v) == [st |-> "val", v |-> v, sess |-> FALSE]    \* holds some other (possibly invalid) value
 NoWire == <<-1>>
@@ -41,19 +43,20 @@ VARIABLES sc,      \* the session's scenario: [ty, val, plan]
           pc,      \* next operation of the plan
           obj,     \* slot -> NoObj | Obj(v)
           wire,    \* syntax -> octets last produced | NoWire
-          dec      \* restartable decoding session (C05): [st, slot, syn, enc, pos]
-vars == <<sc, pc, obj, wire, dec>>
+          dec,     \* restartable decoding session (C05): [st, slot, syn, enc, pos]
+          fault    \* k > 0: the k-th allocation of the library will fail (C14); 0: none armed
+vars == <<sc, pc, obj, wire, dec, fault>>
 NoDec == [st |-> "idle", slot |-> 0, syn |-> "", enc |-> <<>>, pos |-> 0]
 
 TypeOf(s) == TRef(s.ty)
 InitSession(s) == /\ sc = s /\ pc = 1
                   /\ obj = [i \in Slots |-> NoObj]
                   /\ wire = [x \in Syntaxes |-> NoWire]
-                  /\ dec = NoDec
+                  /\ dec = NoDec /\ fault = 0
 StartSession(s) == /\ sc' = s /\ pc' = 1
                    /\ obj' = [i \in Slots |-> NoObj]
                    /\ wire' = [x \in Syntaxes |-> NoWire]
-                   /\ dec' = NoDec
+                   /\ dec' = NoDec /\ fault' = 0
 
 \* ---- operations -----------------------------------------------------------
 OpBuild(slot) == [a |-> "Build", slot |-> slot]
@@ -66,6 +69,15 @@ OpBuildVal(slot, val) == [a |-> "BuildVal", slot |-> slot, val |-> val]   \* a s
 OpCheck(slot) == [a |-> "Check", slot |-> slot]                           \* asn_check_constraints, all buffer sizes
 OpEncode(slot, syn) == [a |-> "Encode", slot |-> slot, syn |-> syn]
 OpDecode(slot, syn) == [a |-> "Decode", slot |-> slot, syn |-> syn]     \* decodes wire[syn]
+OpDecodeAny(slot, syn, bytes, style) == [a |-> "DecodeAny", slot |-> slot, syn |-> syn, bytes |-> bytes, style |-> style]  \* arbitrary octets (C04)
+OpDecodeInto(slot, syn, bytes) == [a |-> "DecodeInto", slot |-> slot, syn |-> syn, bytes |-> bytes]   \* into the existing (reset) structure
+OpEncodeCb(slot, syn, failat) == [a |-> "EncodeCb", slot |-> slot, syn |-> syn, failat |-> failat]  \* asn_encode, callback failing at its failat-th call
+OpEncodeBuf(slot, syn, rel) == [a |-> "EncodeBuf", slot |-> slot, syn |-> syn, rel |-> rel]          \* asn_encode_to_buffer, size relative to the full length
+OpBuildZero(slot) == [a |-> "BuildZero", slot |-> slot]     \* a zero-initialised structure (CHOICE unselected, members absent)
+OpArm(k) == [a |-> "Arm", k |-> k]
+OpFree(slot) == [a |-> "Free", slot |-> slot]
+OpReset(slot) == [a |-> "Reset", slot |-> slot]
+OpPrint(slot) == [a |-> "Print", slot |-> slot]
 OpCompare(s1, s2) == [a |-> "Compare", s1 |-> s1, s2 |-> s2]
 OpDecodeLit(slot, syn, bytes, style) == [a |-> "DecodeLit", slot |-> slot, syn |-> syn, bytes |-> bytes, style |-> style]  \* one-shot, given octets
 OpStartDecode(slot, syn, bytes) == [a |-> "StartDecode", slot |-> slot, syn |-> syn, bytes |-> bytes]
@@ -91,8 +103,6 @@ Encode(op, obs) == /\ obj[op.slot].st = "val"
 Decode(op) == /\ wire[op.syn] # NoWire
               /\ obj' = [obj EXCEPT ![op.slot] = Obj(sc.val)]
               /\ UNCHANGED <<wire, dec>>
-Compare(op) == /\ obj[op.s1].st = "val" /\ obj[op.s2].st = "val"
-               /\ UNCHANGED <<obj, wire, dec>>
 \* The octets given to DecodeLit / StartDecode are, by construction of the scenario, a valid
 \* encoding of the session's value (generator: reference encoder or variant relation).
 DecodeLit(op) == /\ obj' = [obj EXCEPT ![op.slot] = Obj(sc.val)]
@@ -117,70 +127,129 @@ DecodeCall(op, consumed) ==
 
 \* obs: what the trace binds (logged octets of an opaque encoder, logged consumed count);
 \* the generator explores with the neutral observation GenObs
-GenObs == [bytes |-> OpaqueWire, consumed |-> 0]
-Step(obs) == /\ pc <= Len(sc.plan)
-        /\ pc' = pc + 1
-        /\ UNCHANGED sc
-        /\ LET op == sc.plan[pc] IN
-             CASE op.a \in {"Build", "BuildRep"} -> Build(op)
-               [] op.a = "BuildRep" -> Build(op)
-               [] op.a = "BuildVal" -> obj' = [obj EXCEPT ![op.slot] = ObjV(op.val)] /\ UNCHANGED <<wire, dec>>
-               [] op.a = "Check" -> obj[op.slot].st = "val" /\ UNCHANGED <<obj, wire, dec>>
-               [] op.a = "Encode" -> Encode(op, obs.bytes)
-               [] op.a = "DecodeLit" -> DecodeLit(op)
-               [] op.a = "StartDecode" -> StartDecode(op)
-               [] op.a = "DecodeCall" -> DecodeCall(op, IF op.avail < Len(dec.enc) THEN obs.consumed ELSE op.avail - dec.pos)
-               [] op.a = "Decode" -> Decode(op)
-               [] op.a = "Compare" -> Compare(op)
+GenObs == [bytes |-> OpaqueWire, consumed |-> 0, allocfailed |-> 0, rc |-> "FAIL", wf |-> FALSE, val |-> 0]
+\* did an armed allocation failure fire inside this call?  (logged by the allocator wrapper)
+Fired(obs) == fault > 0 /\ obs.allocfailed > 0
+Lib(op) == op.a \in {"Encode", "EncodeCb", "EncodeBuf", "Decode", "DecodeLit", "DecodeAny", "DecodeInto", "DecodeCall",
+                     "Free", "Reset", "Print", "Check", "Compare"}
+\* what a decode leaves in the slot when the specification cannot predict it: the logged value if
+\* the decoder said OK and the projection is well-formed, else an allocated structure of unknown content
+Observed(obs) == IF obs.rc = "OK" /\ obs.wf THEN ObjV(obs.val) ELSE RawObj
+
+Step(obs) ==
+  /\ pc <= Len(sc.plan)
+  /\ pc' = pc + 1
+  /\ UNCHANGED sc
+  /\ LET op == sc.plan[pc] IN
+     /\ fault' = IF op.a = "Arm" THEN op.k ELSE IF Lib(op) /\ Fired(obs) THEN 0 ELSE fault
+     /\ IF Lib(op) /\ Fired(obs)
+        THEN \* C14: the call fails or succeeds cleanly; what it leaves behind is only known to be releasable
+             /\ UNCHANGED wire
+             /\ dec' = IF op.a = "DecodeCall" THEN [dec EXCEPT !.st = "done"] ELSE dec
+             /\ obj' = CASE op.a \in {"Decode", "DecodeLit", "DecodeAny", "DecodeInto"} -> [obj EXCEPT ![op.slot] = Observed(obs)]
+                          [] op.a = "DecodeCall" -> [obj EXCEPT ![dec.slot] = Observed(obs)]
+                          [] op.a \in {"Free"} -> [obj EXCEPT ![op.slot] = NoObj]
+                          [] op.a \in {"Reset"} -> [obj EXCEPT ![op.slot] = ZeroObj]
+                          [] OTHER -> obj
+        ELSE
+        CASE op.a \in {"Build", "BuildRep"} -> Build(op)
+          [] op.a = "BuildVal" -> obj' = [obj EXCEPT ![op.slot] = ObjV(op.val)] /\ UNCHANGED <<wire, dec>>
+          [] op.a = "BuildZero" -> obj' = [obj EXCEPT ![op.slot] = RawObj] /\ UNCHANGED <<wire, dec>>
+          [] op.a = "Arm" -> UNCHANGED <<obj, wire, dec>>
+          [] op.a \in {"Check", "Print", "EncodeCb", "EncodeBuf"} -> obj[op.slot].st # "none" /\ UNCHANGED <<obj, wire, dec>>
+          [] op.a = "Encode" -> IF obj[op.slot].st = "val" /\ (obj[op.slot].sess \/ Valid(RawEnv, TypeOf(sc), obj[op.slot].v))
+                                THEN Encode(op, obs.bytes)
+                                ELSE \* a structure the specification does not vouch for: the result is only logged
+                                     /\ wire' = [wire EXCEPT ![op.syn] = IF obs.bytes = OpaqueWire THEN NoWire ELSE obs.bytes]
+                                     /\ UNCHANGED <<obj, dec>>
+          [] op.a = "DecodeLit" -> DecodeLit(op)
+          [] op.a = "DecodeAny" -> obj' = [obj EXCEPT ![op.slot] = Observed(obs)] /\ UNCHANGED <<wire, dec>>
+          [] op.a = "DecodeInto" -> obj[op.slot].st = "zero" /\ DecodeLit(op)
+          [] op.a = "StartDecode" -> StartDecode(op)
+          [] op.a = "DecodeCall" -> DecodeCall(op, IF op.avail < Len(dec.enc) THEN obs.consumed ELSE op.avail - dec.pos)
+          [] op.a = "Decode" -> IF obj[1].st = "val" /\ ~obj[1].sess
+                                THEN \* re-decoding what an unvouched structure encoded to (C04 consistency)
+                                     obj' = [obj EXCEPT ![op.slot] = Observed(obs)] /\ UNCHANGED <<wire, dec>>
+                                ELSE Decode(op)
+          [] op.a = "Compare" -> UNCHANGED <<obj, wire, dec>>
+          [] op.a = "Free" -> /\ obj' = [obj EXCEPT ![op.slot] = NoObj]
+                              /\ dec' = IF dec.st = "active" /\ dec.slot = op.slot THEN NoDec ELSE dec
+                              /\ UNCHANGED wire
+          [] op.a = "Reset" -> obj' = [obj EXCEPT ![op.slot] = IF obj[op.slot].st = "none" THEN NoObj ELSE ZeroObj] /\ UNCHANGED <<wire, dec>>
 
 \* ---- observable results: in which clauses does the logged event ev disagree with what the
 \* operation must report in the current state?  The set of violated clause names (empty = ok).
 SessVal(x) == SameValue(RawEnv, TypeOf(sc), x, sc.val)
 Has(ev, f) == f \in DOMAIN ev
 When(c, name) == IF c THEN {name} ELSE {}
-Faults(op, ev) ==
+Vouched(o) == o.st = "val" /\ (o.sess \/ Valid(RawEnv, TypeOf(sc), o.v))
+EIO == 5
+\* after this Free, does the session own any structure?  (then the allocator must be balanced)
+AllGoneAfter(op) == /\ \A i \in Slots : i # op.slot => obj[i].st = "none"
+                    /\ (dec.st = "active" => dec.slot = op.slot)
+DecodeOps == {"Decode", "DecodeLit", "DecodeAny", "DecodeInto", "DecodeCall"}
+EncodeOps == {"Encode", "EncodeCb", "EncodeBuf"}
+
+\* an armed allocation failure fired inside the call: it must fail or succeed cleanly (C14)
+LenientFaults(op, ev) ==
+  CASE op.a \in DecodeOps -> When(ev.rc \notin {"OK", "FAIL", "WMORE"}, "bad-rc")
+    [] op.a \in EncodeOps -> When(ev.ret < -1, "bad-return")
+    [] op.a = "Free" -> When(AllGoneAfter(op) /\ ev.live # 0, "leak")
+    [] OTHER -> {}
+
+StrictFaults(op, ev) ==
   CASE op.a \in {"Build", "BuildRep"} ->
          IF ~ev.ok THEN {"build-failed"}
          ELSE IF ~ev.wf THEN {"build-projection-malformed"}
          ELSE When(~SessVal(ev.val), "build-projection-differs")
+    [] op.a = "BuildVal" ->
+         IF ~ev.ok THEN {"build-failed"}
+         ELSE IF ~ev.wf THEN {"build-projection-malformed"}
+         ELSE When(~SameValue(RawEnv, TypeOf(sc), ev.val, op.val), "build-projection-differs")
+    [] op.a = "BuildZero" -> When(~ev.ok, "build-failed")
+    [] op.a = "Arm" -> {}
     [] op.a = "Encode" ->
-         IF obj[op.slot].st # "val" THEN {"no-object"}
-         ELSE IF ~Has(ev, "bytes") THEN {"encode-failed"}
+         IF obj[op.slot].st = "none" THEN {"no-object"}
+         ELSE IF ~Vouched(obj[op.slot])
+         THEN \* C07: a structure that may not be encodable fails with -1 and an errno and no buffer, or encodes
+              (IF ev.ret < 0 THEN When(ev.errno = 0, "failure-without-errno") \cup When(ev.buf, "buffer-returned-on-failure")
+               ELSE When(~Has(ev, "bytes") \/ ~ev.buf, "no-buffer-on-success"))
+         ELSE IF ~Has(ev, "bytes") THEN {"encode-failed"} \cup When(ev.buf, "buffer-returned-on-failure")
          ELSE When(ev.ret # Len(ev.bytes), "ret-differs")
               \cup When(ev.ret <= 0 /\ op.syn # "OER", "empty-encoding")
               \cup When(ev.bytes # EncodeWire(op, ev.bytes), "bytes-differ")
+    [] op.a = "EncodeCb" ->
+         \* C07: reported size = octets delivered; a failing callback => -1 / EIO
+         IF obj[op.slot].st = "none" THEN {"no-object"}
+         ELSE IF ev.failed THEN When(ev.ret # -1, "callback-failure-not-reported") \cup When(ev.ret = -1 /\ ev.errno # EIO, "errno-not-EIO")
+         ELSE IF ev.ret < 0 THEN (IF Vouched(obj[op.slot]) THEN {"encode-failed"} ELSE When(ev.errno = 0, "failure-without-errno"))
+         ELSE When(ev.ret # ev.delivered, "size-not-delivered")
+              \cup When(Vouched(obj[op.slot]) /\ wire[op.syn] # NoWire /\ Canonical(op.syn) /\ ev.ret # Len(wire[op.syn]), "size-differs")
+    [] op.a = "EncodeBuf" ->
+         \* C07: never writes beyond the buffer; the same full size for every buffer size; the prefix that fits
+         IF obj[op.slot].st = "none" THEN {"no-object"}
+         ELSE When(~ev.canary, "wrote-beyond-buffer")
+              \cup (IF ev.ret < 0 THEN (IF Vouched(obj[op.slot]) THEN {"encode-failed"} ELSE When(ev.errno = 0, "failure-without-errno"))
+                    ELSE When(Vouched(obj[op.slot]) /\ wire[op.syn] # NoWire /\ Canonical(op.syn) /\ ev.ret # Len(wire[op.syn]), "size-depends-on-buffer")
+                         \cup When(Vouched(obj[op.slot]) /\ Canonical(op.syn) /\ ~ev.prefix, "buffer-not-a-prefix"))
     [] op.a = "Decode" ->
          IF wire[op.syn] = NoWire THEN {"no-wire"}
          ELSE IF ev.rc # "OK" THEN {"rc-not-ok"}
          ELSE When(ev.consumed # ev.size, "consumed-differs")
               \cup When(ev.size # Len(wire[op.syn]), "size-differs")
               \cup (IF ~Has(ev, "val") \/ ~ev.wf THEN {"decoded-malformed"}
+                    ELSE IF obj[1].st = "val" /\ ~obj[1].sess
+                    THEN When(~SameValue(RawEnv, TypeOf(sc), ev.val, obj[1].v), "value-differs")
                     ELSE When(~SessVal(ev.val), "value-differs"))
-    [] op.a = "BuildVal" ->
-         IF ~ev.ok THEN {"build-failed"}
-         ELSE IF ~ev.wf THEN {"build-projection-malformed"}
-         ELSE When(~SameValue(RawEnv, TypeOf(sc), ev.val, op.val), "build-projection-differs")
-    [] op.a = "Check" ->
-         \* C08: 0 iff every constraint at every depth holds; on failure a bounded, terminated
-         \* message naming a type, for every buffer size (runs: one entry per size tried)
-         IF obj[op.slot].st # "val" THEN {"no-object"}
-         ELSE LET ok == Valid(RawEnv, TypeOf(sc), obj[op.slot].v) IN
-              When(ok /\ ev.ret # 0, "valid-rejected")
-              \cup When(~ok /\ ev.ret = 0, "invalid-accepted")
-              \cup When(ev.ret # 0 /\ ev.ret # -1, "bad-return")
-              \cup (IF ev.ret = 0 THEN {}
-                    ELSE When(\E i \in DOMAIN ev.runs : ev.runs[i].ret # ev.ret, "result-depends-on-buffer")
-                         \cup When(\E i \in DOMAIN ev.runs : ~ev.runs[i].canary, "message-overruns-buffer")
-                         \cup When(\E i \in DOMAIN ev.runs : ev.runs[i].bufsize > 0 /\ ~ev.runs[i].terminated, "message-not-terminated")
-                         \cup When(\E i \in DOMAIN ev.runs : ev.runs[i].bufsize > 0 /\ ev.runs[i].errlen >= ev.runs[i].bufsize, "errlen-exceeds-buffer")
-                         \cup When(\E i \in DOMAIN ev.runs : ev.runs[i].bufsize > 0 /\ ev.runs[i].errlen # ev.runs[i].msglen, "errlen-is-not-message-length")
-                         \cup When(\E i \in DOMAIN ev.runs : ~ev.runs[i].prefix, "message-not-a-prefix")
-                         \cup When(~ev.named, "message-names-no-type"))
-    [] op.a = "DecodeLit" ->
-         IF ev.rc # "OK" THEN {"rc-not-ok"}
+    [] op.a \in {"DecodeLit", "DecodeInto"} ->
+         IF op.a = "DecodeInto" /\ obj[op.slot].st # "zero" THEN {"not-reset"}
+         ELSE IF ev.rc # "OK" THEN {"rc-not-ok"}
          ELSE When(ev.consumed # Len(op.bytes), "consumed-differs")
               \cup (IF ~Has(ev, "val") \/ ~ev.wf THEN {"decoded-malformed"}
                     ELSE When(~SessVal(ev.val), "value-differs"))
+    [] op.a = "DecodeAny" ->
+         \* C04: any octets: one of the three codes, never more consumed than given
+         When(ev.rc \notin {"OK", "WMORE", "FAIL"}, "bad-rc") \cup When(ev.consumed > ev.size, "consumed-exceeds-size")
     [] op.a = "StartDecode" -> {}
     [] op.a = "DecodeCall" ->
          IF dec.st # "active" THEN {"no-decoding-session"}
@@ -195,10 +264,34 @@ Faults(op, ev) ==
                      ELSE When(ev.consumed # pres, "consumed-differs")
                           \cup (IF ~Has(ev, "val") \/ ~ev.wf THEN {"decoded-malformed"}
                                 ELSE When(~SessVal(ev.val), "value-differs"))))
+    [] op.a = "Check" ->
+         \* C08: 0 iff every constraint at every depth holds; on failure a bounded, terminated
+         \* message naming a type, for every buffer size (runs: one entry per size tried)
+         IF obj[op.slot].st = "none" THEN {"no-object"}
+         ELSE IF obj[op.slot].st # "val" THEN {}
+         ELSE LET ok == Valid(RawEnv, TypeOf(sc), obj[op.slot].v) IN
+              When(ok /\ ev.ret # 0, "valid-rejected")
+              \cup When(~ok /\ ev.ret = 0, "invalid-accepted")
+              \cup When(ev.ret # 0 /\ ev.ret # -1, "bad-return")
+              \cup (IF ev.ret = 0 THEN {}
+                    ELSE When(\E i \in DOMAIN ev.runs : ev.runs[i].ret # ev.ret, "result-depends-on-buffer")
+                         \cup When(\E i \in DOMAIN ev.runs : ~ev.runs[i].canary, "message-overruns-buffer")
+                         \cup When(\E i \in DOMAIN ev.runs : ev.runs[i].bufsize > 0 /\ ~ev.runs[i].terminated, "message-not-terminated")
+                         \cup When(\E i \in DOMAIN ev.runs : ev.runs[i].bufsize > 0 /\ ev.runs[i].errlen >= ev.runs[i].bufsize, "errlen-exceeds-buffer")
+                         \cup When(\E i \in DOMAIN ev.runs : ev.runs[i].bufsize > 0 /\ ev.runs[i].errlen # ev.runs[i].msglen, "errlen-is-not-message-length")
+                         \cup When(\E i \in DOMAIN ev.runs : ~ev.runs[i].prefix, "message-not-a-prefix")
+                         \cup When(~ev.named, "message-names-no-type"))
     [] op.a = "Compare" ->
-         IF obj[op.s1].st # "val" \/ obj[op.s2].st # "val" THEN {"no-object"}
+         IF obj[op.s1].st = "none" \/ obj[op.s2].st = "none" THEN {"no-object"}
+         ELSE IF obj[op.s1].st # "val" \/ obj[op.s2].st # "val" THEN {}
          ELSE When((ev.ret = 0) # SameValue(RawEnv, TypeOf(sc), obj[op.s1].v, obj[op.s2].v), "compare-differs")
+    [] op.a = "Print" -> When(obj[op.slot].st = "none", "no-object")
+    [] op.a = "Free" -> When(AllGoneAfter(op) /\ ev.live # 0, "leak")
+    [] op.a = "Reset" -> When(ev.had /\ ~ev.zeroed, "reset-not-zeroed")
     [] OTHER -> {"unknown-op"}
+
+Faults(op, ev) == IF Lib(op) /\ fault > 0 /\ Has(ev, "allocfailed") /\ ev.allocfailed > 0
+                  THEN LenientFaults(op, ev) ELSE StrictFaults(op, ev)
 
 \* does the representation change anything for this value?
 RECURSIVE RepApplies(_, _, _)
